@@ -545,9 +545,10 @@ def run(chk, replay=None):
             with open(gen_path, 'w') as f:
                 f.write(text)
     chk.coverage['translator'] = {'status': 'ok' if not info['unparsed'] else 'partial', 'rules': info['rules'],
-                                  'params': info['params'], 'suffixes': info['suffixes'], 'unparsed': info['unparsed']}
+                                  'params': info['params'], 'suffixes': info['suffixes'], 'unparsed': info['unparsed'],
+                                  'printer_fixes_in_source': info['printer_fixes'], 'printer_notes': info['printer_notes']}
     # ---- 2. proofs
-    broken = chk.lean(['Lcapy/Props/C06.lean', 'Lcapy/Props/C06Line.lean'],
+    broken = chk.lean(['Lcapy/Props/C06.lean', 'Lcapy/Props/C06Line.lean', 'Lcapy/Props/C06Fixed.lean'],
                       helper_files=['Lcapy/Proofs/ParserLemmas.lean', 'Lcapy/Proofs/ParserRoundTrip.lean',
                                     'Lcapy/Model/Parser.lean', 'Lcapy/Spec/Netlist.lean',
                                     'Lcapy/Spec/NetlistExec.lean', 'Lcapy/Driver/C06.lean', 'Lcapy/Generated/Grammar.lean'],
@@ -572,8 +573,10 @@ def run(chk, replay=None):
     info_reply = drv.ask1('c06.info')
     chk.coverage['model_table'] = info_reply
     n_rules_real = sum(len(v) for v in real.rules.values())
-    m = re.match(r'rules (\d+) ok (\w+) types (\d+)', info_reply)
-    if not m or int(m.group(1)) != n_rules_real or m.group(2) != 'true' or int(m.group(3)) != len(real.rules):
+    m = re.match(r'rules (\d+) ok (\w+) types (\d+) fixes (\w+) (\w+) (\w+)', info_reply)
+    want_fix = ' '.join('true' if info['printer_fixes'][k] else 'false' for k in ('C06-e', 'C06-a', 'C06-b'))
+    if (not m or int(m.group(1)) != n_rules_real or m.group(2) != 'true' or int(m.group(3)) != len(real.rules)
+            or ' '.join(m.group(4, 5, 6)) != want_fix):
         disagreements.append({'what': 'table-size', 'model': info_reply, 'lcapy': '%d rules %d types' % (n_rules_real, len(real.rules))})
         chk.coverage['correspondence']['disagreements'] += 1
 
@@ -933,6 +936,17 @@ def run(chk, replay=None):
                     hyp.append((line_for(r, '1', NODES, {0: '{{a}}'}, set(), ''), 'nested-braces', r.classname))
                     hyp.append((line_for(r, '1', NODES, {0: '{"a"}'}, set(), ''), 'nested-quote', r.classname))
                     hyp.append((line_for(r, '1', NODES, {0: '{}'}, set(), ''), 'empty-value', r.classname))
+    # nested braces / quotes / delimiters inside brackets (G2): BAT keeps any text as its value; V / I take
+    # expressions with nested parentheses and commas
+    NESTED = ['{a{b}c}', '{a {b {c}} d}', '{"a b" c}', '"a {b} c"', '{x, {y}, (z)}', '{a"b c"d}', '{f(x){y, z}}',
+              '{a{b{c{d}}}}', '{ {a} }', '{a }', '{a,}']
+    for v in NESTED:
+        hyp.append(('BAT1 1 2 %s' % v, 'nested', 'BAT'))
+        if thorough:
+            hyp.append(('BAT_2 n_1 0 Value=%s; right' % v, 'nested', 'BAT'))
+    for v in ['{Piecewise((1, t > 0), (2, True))}', '{Max(t, 2) * Heaviside(t - (1 + 2))}', '{exp(-(t, )[0])}']:
+        hyp.append(('V1 1 0 %s' % v, 'nested', 'V'))
+        hyp.append(('I1 1 0 %s\nR1 1 0 2' % v, 'nested', 'I'))
     hyp.append(('R1 1 2; def=foo', 'opts-def', 'R'))
     hyp.append(('R1 1 2; def=foo, def=bar, right', 'opts-def', 'R'))
     for (text, what, cls) in hyp:
